@@ -12,7 +12,7 @@ CHECK = {
     "assumptions": [
         "only the 'never' clauses of the statement are checked; a refusal is never an alarm",
         "'default under the documented rule' is read as: default may appear on any child",
-        "mount maximum = system default max lease TTL (768h); namespaces and entity aliases are not varied here",
+        "mount maximum = system default max lease TTL (768h); entity aliases and role bound CIDRs are not varied here",
     ],
     "units": [
         {"name": "core", "pkg": "./internal/verifh/core", "run": "^TestVerifC07$", "rewrite": SYNC_RW,
